@@ -181,6 +181,7 @@ func scripted() []script {
 			{K: "ConvertDenom", T: 1, A: 100, B: 101, Src: 1, Tgt: 0, X: 50},
 		}},
 		{"C04 C08", "zero amounts through every entry point", spi, zeroOps()},
+		{"C04 C05", "a transfer with bridge fee 0 (crossChain precompile) batched next to a paying one; the batch times out, a later one is superseded: every transfer is back in the pool and can be cancelled", sp, zeroFeeBatchOps()},
 		{"C08 C04", "a module-owned pair whose denom is a case variant of the native coin's (fx): conversions both ways, bridging", spfx("fx"), caseVariantOps()},
 		{"C08", "a module-owned pair whose denom is a case variant of the native coin's (Fx)", spfx("Fx"), caseVariantOps()},
 		{"C08 C04", "convert-denom to ANOTHER account while the erc20 module holds the target denom (escrow / parked alias)", sp, []Op{
@@ -359,6 +360,48 @@ func zeroOps() []Op {
 	}
 }
 
+// zeroFeeBatchOps: the crossChain precompile accepts a bridge fee of exactly 0 (MsgSendToExternal does not). Such a transfer
+// cannot be batched alone (total fee below the minimum fee) but rides along with a paying transfer of the same token (base
+// fee 0). The batch is then CANCELLED - once by the batch time-out, once by the execution of a later batch of the token -
+// and every transfer, the unpaid one included, must be pending again and refundable to its owner.
+func zeroFeeBatchOps() []Op {
+	return []Op{
+		{K: "SendToFx", C: 1, T: 1, A: 100, X: 3000},
+		{K: "SendToFx", C: 1, T: 1, A: 101, X: 3000},
+		{K: "ConvertCoin", T: 1, A: 100, B: 100, X: 2000},
+		{K: "PreCrossChain", C: 1, T: 1, A: 100, X: 500, Y: 0}, // id 1, fee 0
+		{K: "RequestBatch", C: 1, T: 1},                         // refused: total fee 0 < minimum fee 1
+		{K: "SendToExternal", C: 1, T: 1, A: 101, X: 400, Y: 7}, // id 2
+		{K: "RequestBatch", C: 1, T: 1},                         // batch 1 = {2, 1}
+		{K: "Cancel", C: 1, A: 100, ID: 1},                      // refused: batched
+		{K: "ObserveJump", C: 1, X: 1},                          // batch 1 times out
+		{K: "Cancel", C: 1, A: 100, ID: 1},                      // accepted: 500 back
+		{K: "PreCrossChain", C: 1, T: 1, A: 100, X: 300, Y: 0},  // id 3, fee 0
+		{K: "RequestBatch", C: 1, T: 1},                         // batch 2 = {2, 3}
+		{K: "SendToExternal", C: 1, T: 1, A: 101, X: 100, Y: 9}, // id 4
+		{K: "RequestBatch", C: 1, T: 1},                         // batch 3 = {4}
+		{K: "BatchExecuted", C: 1, T: 1, ID: 3},                 // batch 2 superseded: 2 and 3 back in the pool
+		{K: "PreCancel", C: 1, A: 100, ID: 3},                   // accepted
+		{K: "Cancel", C: 1, A: 101, ID: 2},                      // accepted
+	}
+}
+
+// zeroFeeBatches: the pending batches (chain/token/nonce) that contain a transfer with bridge fee 0
+func (w *World) zeroFeeBatches() map[string]bool {
+	out := map[string]bool{}
+	for _, c := range w.Chains {
+		for _, b := range w.xs(c).Keeper.GetOutgoingTxBatches(w.C.Ctx) {
+			for _, tx := range b.Transactions {
+				if tx.Fee.Amount.IsZero() {
+					out[fmt.Sprintf("%d/%d/%d", c, w.tokByContract(c, b.TokenContract), b.BatchNonce)] = true
+					break
+				}
+			}
+		}
+	}
+	return out
+}
+
 func firstOps(h *History, n int) []string {
 	var out []string
 	for i, s := range h.Steps {
@@ -455,8 +498,22 @@ func execHistory(c *lib.Chain, h *History, r *lib.Rand, fixed []Op, rep *lib.Rep
 		}
 		h.Ops = append(h.Ops, o)
 		pre := mon.before(o)
+		zb := w.zeroFeeBatches()
 		subs := w.perform(&o, record, mon)
 		mon.after(o, pre, subs)
+		if fixed == nil { // coverage of the generator: batches carrying an unpaid (fee 0) transfer, and how they ended
+			za := w.zeroFeeBatches()
+			for key := range za {
+				if !zb[key] {
+					rep.Count("cover:gen:batch-with-zero-fee-transfer:requested")
+				}
+			}
+			for key := range zb {
+				if !za[key] && !(o.K == "BatchExecuted" && key == fmt.Sprintf("%d/%d/%d", o.C, o.T, o.ID)) {
+					rep.Count("cover:gen:batch-with-zero-fee-transfer:cancelled")
+				}
+			}
+		}
 		if subs.ok && o.K != "Toggle" && o.K != "Observe" {
 			moved++
 			if o.T < len(w.Toks) {
